@@ -22,3 +22,8 @@ def run(ctx):
     ctx.count("knn_tie_rows_skipped", ctx.stats.get("knn_tie_skipped", 0))
     scns = [TW.gen_nhood(ctx.seed, i, ["radius", "knn"], "C03") for i in range(ctx.scale(400, 5000))]
     base.run_twin(ctx, "nhood_vs_fresh_policy", scns)
+    # long histories, many query rows (block-wise distance computations must keep row positions)
+    huge = [TW.gen_huge(ctx.seed, i, ["radius", "knn"], "C03", sizes=[(1100, 30, 65), (2100, 30, 520)]) for i in range(ctx.scale(4, 40))]
+    base.run_twin(ctx, "chunk_vs_rows", huge, shrink=False)
+    base.run_twin(ctx, "nhood_vs_fresh_policy", [dict(h, ops=[h["ops"][0], h["ops"][2], dict(h["ops"][3], c=h["ops"][3]["c"][-40:])])
+                                               for h in huge[:ctx.scale(2, 20)]], shrink=False)
